@@ -566,9 +566,15 @@ pub fn generate(seed: u64, cases: usize, out: &mut Vec<String>) {
     for case in 1..=cases {
         out.push(format!("# case {} seed {}", case, seed));
         let l = gen_history(&mut rng, true, &mut st);
-        out.push(show_line("hist", &l));
-        st.line("hist");
-        if rng.chance(1, 2) {
+        // the exact-graph comparison needs the recorded entry-point picks to be reproducible: the real
+        // choice is `HashMap::keys().next()`; a history whose picks cannot be forced (seen once in
+        // ~170k thorough lines, after a duplicate insert) is compared through its invariants only
+        let forced = matches!(build(&l, true), Built::Ok(_));
+        if forced {
+            out.push(show_line("hist", &l));
+            st.line("hist");
+        }
+        if !forced || rng.chance(1, 2) {
             out.push(show_line("inv", &l));
             st.line("inv");
         }
